@@ -521,3 +521,38 @@ def fold(e):
                 return ("const", v)
         return ("bin", e[1], a, b)
     return e
+
+
+def subst_args(e, args):
+    """replace ('arg', k, proj...) leaves by args[k] (+ projection) in an expression tree"""
+    if not isinstance(e, tuple) or not e:
+        return e
+    if e[0] == "arg" and e[1] in args:
+        a = args[e[1]]
+        rest = e[2:]
+        if not rest:
+            return a
+        if a[0] in ("arg", "upvar", "place"):
+            return a + rest
+        return ("proj", a) + rest
+    return tuple(subst_args(x, args) if isinstance(x, tuple) and x and isinstance(x[0], str) else (tuple(subst_args(y, args) for y in x) if isinstance(x, tuple) else x) for x in e)
+
+
+def inline_calls(facts, e, depth=4, only=None):
+    """Replace calls to crate functions whose body is a single straight-line return expression by that expression
+    (arguments substituted), recursively.  `only`: optional regex restricting which callees are inlined."""
+    if not isinstance(e, tuple) or not e or depth < 0:
+        return e
+    if e[0] == "call":
+        args = tuple(inline_calls(facts, a, depth, only) for a in e[2])
+        b = facts.bodies.get(e[1])
+        if b is not None and (only is None or re.search(only, e[1])) and not b.coroutine:
+            ds = b.defs().get(0, [])
+            switches = [bb for bb in b.live_blocks() if b.term(bb)["k"] == "switch"]
+            if len(ds) == 1 and not switches:
+                ret = expr_of(b, {"cp": [0]}, max_depth=40)
+                if ret[0] not in ("?", "place"):
+                    sub = subst_args(ret, {i + 1: a for i, a in enumerate(args)})
+                    return inline_calls(facts, sub, depth - 1, only)
+        return ("call", e[1], args)
+    return tuple(inline_calls(facts, x, depth, only) if isinstance(x, tuple) and x and isinstance(x[0], str) else (tuple(inline_calls(facts, y, depth, only) for y in x) if isinstance(x, tuple) else x) for x in e)
